@@ -9,8 +9,7 @@ import tempfile
 from bv.common import Property, Failure, time_limit, exc_name, CaseTimeout, Driver, InfraError
 
 CR, LF = 13, 10
-# the eight line breaks of the statement, as code-point tuples, \r\n first
-EXPECTED_ENDINGS = [[13, 10], [10], [11], [12], [13], [0x85], [0x2028], [0x2029]]
+# the characters of the eight line breaks of the statement
 BREAK_CPS = [10, 11, 12, 13, 0x85, 0x2028, 0x2029]
 FS_CPS = (0x1c, 0x1d, 0x1e)
 # small-scope alphabet for texts: ordinary char, space, digits of the historic '\x2028' typo, every break
@@ -192,7 +191,7 @@ class C19(Property):
                     yield {'k': 'jl', 'c': hx(c), 'mode': mode, 'ign': ign}
         for _ in range(30000 if th else 2500):
             yield self.random_jl(rng)
-        for j in range(1500 if th else 110):
+        for j in range(1500 if th else 300):
             yield self.big_jl(rng, real=(j % 10 == 0))
 
     def deep_cases(self, budget_s):
@@ -396,7 +395,9 @@ class C19(Property):
     # ------------------------------------------------------------------ implementation
     def tmpdir(self):
         if self._tmp is None:
+            import atexit
             self._tmp = tempfile.mkdtemp(prefix='bv-c19-')
+            atexit.register(shutil.rmtree, self._tmp, ignore_errors=True)
         return self._tmp
 
     def __del__(self):
